@@ -23,7 +23,7 @@ use std::panic::{catch_unwind, AssertUnwindSafe};
 use std::rc::Rc;
 use std::time::Duration;
 use xray::builtin::builtin_permissions as bp;
-use xray::permissions::PermissionSet;
+use xray::permissions::{Permission, PermissionSet};
 use xray::root_runtime_scope::{EvaluatedValue, RootEvaluationScope};
 use xray::runtime::{RTCell, RuntimeLimits};
 use xray::std_compilation_scope;
@@ -107,6 +107,7 @@ fn mk_limits(l: Option<&Value>) -> RuntimeLimits {
             .get("time_ms")
             .and_then(|x| x.as_u64())
             .map(Duration::from_millis);
+        let by_id = l.get("perms_by_id").and_then(|x| x.as_bool()).unwrap_or(false);
         if let Some(p) = l.get("perms").and_then(|p| p.as_object()) {
             for (k, v) in p {
                 let perm = match k.as_str() {
@@ -118,6 +119,10 @@ fn mk_limits(l: Option<&Value>) -> RuntimeLimits {
                     "sleep" => &bp::SLEEP,
                     _ => continue,
                 };
+                // "perms_by_id": the host names the permission by its id through a value of its own making (same id, the other
+                // default) instead of the builtin constant: a permission is identified by its id
+                let fresh = Permission::new(perm.id, !perm.default);
+                let perm = if by_id { &fresh } else { perm };
                 match v.as_bool() {
                     Some(true) => perms.allow(perm),
                     Some(false) => perms.forbid(perm),
